@@ -1,6 +1,7 @@
 (* C08 — single-response methods yield exactly one response or an error. *)
 From Coq Require Import ZArith List Bool.
 From Grpchan Require Import model.StreamSeq proofs.StreamSeq model.Framing gen.Wire proofs.C08.
+From Grpchan Require model.InprocStream proofs.StreamOrder proofs.StreamDeliver proofs.StreamFinal.
 From Grpchan Require model.HttpClient proofs.HttpClient corr.HttpSched proofs.HttpTrace.
 Import ListNotations.
 Open Scope Z_scope.
@@ -81,3 +82,24 @@ Example C08_http_schedules_nonvacuous :
     [(Grpchan.model.HttpClient.Deliver, []); (Grpchan.model.HttpClient.Deliver, []); (Grpchan.model.HttpClient.Deliver, []);
      (Grpchan.model.HttpClient.EndBody, []); (Grpchan.model.HttpClient.Recv, [Grpchan.model.HttpClient.RMsg 7])] = false.
 Proof. vm_compute. auto. Qed.
+
+(* the COMPLETE in-process stream as a concurrent object (every interleaving, cancellation and deadline
+   included): on a single-response method a message x handed to the caller is the ONLY message ever put on
+   the response channel, no error frame was put on it, the returning handler has closed it, and the caller is
+   handed no other message *)
+Theorem C08_full_stream_single_response_means_one : forall s h x,
+  Grpchan.proofs.StreamDeliver.lreach false s h ->
+  In (Grpchan.model.InprocStream.CR, Grpchan.model.InprocStream.CRecv, Grpchan.model.InprocStream.RMsg x)
+     (Grpchan.proofs.StreamDeliver.lg h) ->
+  Grpchan.model.InprocStream.respClosed s = true /\
+  existsb Grpchan.proofs.StreamFinal.is_err (Grpchan.proofs.StreamDeliver.hp h) = false /\
+  Grpchan.proofs.StreamOrder.datas (Grpchan.proofs.StreamDeliver.hp h) = [x] /\
+  Grpchan.proofs.StreamDeliver.client_msgs (Grpchan.proofs.StreamDeliver.lg h) = [x].
+Proof. exact Grpchan.proofs.StreamFinal.single_response_means_one. Qed.
+Print Assumptions C08_full_stream_single_response_means_one.
+
+Theorem C08_full_stream_single_run : exists s h,
+  Grpchan.proofs.StreamDeliver.lreach false s h /\
+  In (Grpchan.model.InprocStream.CR, Grpchan.model.InprocStream.CRecv, Grpchan.model.InprocStream.RMsg 9)
+     (Grpchan.proofs.StreamDeliver.lg h).
+Proof. exact Grpchan.proofs.StreamFinal.single_run. Qed.
